@@ -17,6 +17,7 @@ import (
 	"runtime/debug"
 	"strings"
 	"sync"
+	"sync/atomic"
 
 	"github.com/insomniacslk/dhcp/dhcpv6"
 	"verif/seq/adapt"
@@ -44,6 +45,8 @@ func TestReplay(t *testing.T) {
 var (
 	unadMu sync.Mutex
 	unad   = map[string]bool{}
+	// values whose encoding is a MayReject shape / of which the library refused its own encoding
+	mayRejectN, mayRejectRefused atomic.Int64
 )
 
 // Check runs the two oracles on one freshly built value. desc describes how
@@ -68,7 +71,10 @@ func Check(c *fw.Ctx, scope string, order int64, desc func() string, build func(
 	in := func() string { return desc() + " ; built tree: " + bt.String() + " ; encoding: " + fw.Hex(enc) }
 	// (b) independent reading of the emitted bytes
 	rt, rv, why := v6ref.DecodeMessage(enc)
-	if rv != v6ref.Accept {
+	if rv == v6ref.MayReject {
+		mayRejectN.Add(1)
+	}
+	if !rv.HasTree() {
 		c.Report(fw.Violation{Fingerprint: "ToBytes|layout|reference-" + rv.String() + ":" + why, Order: order, Scope: scope, Input: in(),
 			Observed: "reference decoder: " + rv.String() + " (" + why + ")", Expected: "the emitted bytes are a well-formed message",
 			Explain: "the encoding of an in-domain value is not the RFC wire layout", GoTest: goTest(desc(), enc)})
@@ -87,6 +93,12 @@ func Check(c *fw.Ctx, scope string, order int64, desc func() string, build func(
 		return false
 	}
 	if lerr != nil {
+		if rv == v6ref.MayReject {
+			// the value's encoding has a shape a decoder may refuse (v6ref.MayRejectClasses): tolerated
+			mayRejectRefused.Add(1)
+			c.Distinct("may-reject-refused: " + why)
+			return true
+		}
 		cls := "message"
 		if rt != nil {
 			cls = firstRejected(rt)
@@ -413,7 +425,10 @@ func Run(c *fw.Ctx) {
 	unadMu.Unlock()
 	c.Extra("unadapted_library_types", ul)
 	c.Extra("reference_leniencies", v6ref.Leniencies())
+	c.Extra("may_reject_classes", v6ref.MayRejectClasses())
+	c.Extra("may_reject_values", map[string]int64{"values_with_may_reject_encoding": mayRejectN.Load(), "of_which_library_refused_to_decode": mayRejectRefused.Load()})
 	c.Assume("reference decoder v6ref written from RFC 8415 and the per-option RFCs (stdlib only, no library import)",
 		"value domain as in the statement: durations in whole seconds < 2^32, elapsed time in whole 10 ms units, prefix lengths 0..128 / 0..32, 16-byte addresses, valid names, at least one item where the layout requires one; requested-option lists without repeated codes (the decoder drops repeats: C06 normalisation); a zero-length IA prefix has an all-zero address (DESIGN 8a.1)",
+		"values whose encoding falls in a MAY-REJECT class of the reference decoder (empty lists, zero-length class items, DUIDs with an empty variable part, relay messages without relay-msg, ...) stay in the corpus: oracle (b) requires the reference to read the value back (ACCEPT or MAY-REJECT with an equal tree); oracle (a) tolerates a decode error for exactly these values and demands equality whenever the library decodes them",
 		"sequences of more than 3 arbitrary options are covered by the deterministic long lists only")
 }
